@@ -69,7 +69,7 @@ static const struct ref_op ref_ops[] = { {1, I, 0x0200}, {0, I, 0x2000} };
 #define EMPTY_OK 1
 static const struct ref_op ref_ops[] = { {0, C, 0} };
 #elif TOK == 14
-/* mke2fs(8): "the pseudo-filesystem feature "none" will clear all filesystem features" -- no permission is asked */
+/* mke2fs(8): "the pseudo-filesystem feature "none" will clear all filesystem features": a clear of every set feature */
 #define REQ "none,extent"
 #define WIPE_FIRST 1
 static const struct ref_op ref_ops[] = { {0, I, 0x0040} };
@@ -111,9 +111,23 @@ int main(void)
 
 	/* ---- reference */
 #ifdef WIPE_FIRST
-	want[0] = want[1] = want[2] = 0;
+	/* "none" clears every feature that is set, so it is a clear of each of them: refused (naming the lowest offending
+	 * bit of the first offending word) when the clear mask -- or, without one, the set mask -- forbids any of them */
+	{
+		__u32 *perm = clrp ? clrp : okp;
+		for (w = 0; w < 3 && !want_rc; w++) {
+			__u32 bad = perm ? (want[w] & ~perm[w]) : 0;
+			if (bad) {
+				want_rc = 1;
+				want_type = w | 0x80;
+				want_mask = bad & (0u - bad);
+			}
+		}
+		if (!want_rc)
+			want[0] = want[1] = want[2] = 0;
+	}
 #endif
-	for (i = 0; i <= NOPS; i++) {
+	for (i = 0; i <= NOPS && !want_rc; i++) {
 		const struct ref_op *o = &ref_ops[i < NOPS ? i : 0];
 		__u32 *perm;
 		if (i == UNKNOWN_AT) {
